@@ -129,9 +129,11 @@ def line_context(trace_path, lineno):
             if o.get("ev") == "reset":
                 meta, start, acts = o, i, []
             elif o.get("ev") == "op":
-                a = dict(name=o["name"], e=o["e"], a=o["a"], b=o["b"], now=o["now"])
-                if o["name"] in ("Deliver", "Forge", "Input"):
-                    a["in"] = o["in"]
+                a = dict(name=o.get("name"), e=o.get("e"), a=o.get("a"), b=o.get("b"), now=o.get("now"))
+                if o.get("name") in ("Deliver", "Forge", "Input"):
+                    a["in"] = o.get("in")
+                if "pkt" in o:
+                    a["pkt"] = o["pkt"]
                 acts.append(a)
             if i == lineno:
                 return meta, i - start, o, acts
